@@ -10,6 +10,7 @@ import (
 	"math"
 	"math/rand"
 	"reflect"
+	"regexp"
 	"sort"
 	"strconv"
 	"strings"
@@ -664,8 +665,34 @@ func (r *reqRoot) Resolve(f *ggql.Field, args map[string]interface{}) (interface
 		r.called = true
 		r.arg = args["a"]
 		return 1, nil
+	case "g":
+		return 1, nil
 	}
 	return nil, nil
+}
+
+// siblingType: the same type expression with every leaf scalar replaced by one that takes much of the same
+// input but delivers another Go value
+var siblingRe = regexp.MustCompile(`[A-Za-z0-9_]+`)
+
+func siblingType(tt string) string {
+	return siblingRe.ReplaceAllStringFunc(tt, func(n string) string {
+		switch n {
+		case "Float64":
+			return "Float"
+		case "Float":
+			return "Float64"
+		case "String":
+			return "ID"
+		case "ID":
+			return "String"
+		case "Int":
+			return "Float"
+		case "Int64":
+			return "Float64"
+		}
+		return n
+	})
 }
 
 func sortedTokens(s string) string {
@@ -683,7 +710,7 @@ func coerceReqExec(l []sx.S) sx.S {
 	rr := &reqRoot{}
 	root := ggql.NewRoot(rr)
 	tt := coerceTypeText(l[2])
-	if err := root.ParseString(coerceReqSDL + "type Query { f(a: " + tt + "): Int }\n"); err != nil {
+	if err := root.ParseString(coerceReqSDL + "type Query { f(a: " + tt + "): Int g(b: " + siblingType(tt) + "): Int }\n"); err != nil {
 		return sx.L("schema-error", sx.Hex(err.Error()))
 	}
 	wantTime = false
@@ -703,6 +730,26 @@ func coerceReqExec(l []sx.S) sx.S {
 		res = root.ResolveString("{ f(a: "+lit+") }", "", nil)
 	case "reqv":
 		res = root.ResolveString("query($v: "+tt+") { f(a: $v) }", "", map[string]interface{}{"v": coerceGoValue(l[3])})
+	case "reqw":
+		// the same variable is used before at a position of a sibling type (ggql does not compare the
+		// type of a variable with the position it is used at): f still gets what the client wrote
+		res = root.ResolveString("query($v: "+tt+") { g(b: $v) f(a: $v) }", "", map[string]interface{}{"v": coerceGoValue(l[3])})
+		if el, ok := res["errors"].([]interface{}); ok {
+			var keep []interface{}
+			for _, e := range el {
+				if em, _ := e.(map[string]interface{}); em != nil {
+					if p, _ := em["path"].([]interface{}); len(p) > 0 && p[0] == "g" {
+						continue // what the other position refuses is its own matter
+					}
+				}
+				keep = append(keep, e)
+			}
+			if len(keep) == 0 {
+				delete(res, "errors")
+			} else {
+				res["errors"] = keep
+			}
+		}
 	case "reqd0", "reqd1", "reqd2", "reqd3":
 		// the value is the default of the second variable; the caller gives no value for it
 		lit, ok := coerceLitText(l[3])
@@ -927,6 +974,10 @@ func coerceGen(dir string) func(r *rand.Rand, tier string) []Case {
 				if lit, ok := coerceLitText(v); ok {
 					cases = append(cases, Case{ID: fmt.Sprintf("k%dl", n), Input: sx.L("coerce", "reql", t, v),
 						Tags: append(append([]string{}, tags...), "nontrivial", "request-literal"), Human: "{ f(a: " + lit + ") } with a: " + coerceTypeText(t)})
+				}
+				if strings.Contains(sx.String(t), "(l ") {
+					cases = append(cases, Case{ID: fmt.Sprintf("k%dw", n), Input: sx.L("coerce", "reqw", t, v),
+						Tags: append(append([]string{}, tags...), "nontrivial", "request-variable-used-twice"), Human: "query($v: " + coerceTypeText(t) + ") { g(b: $v) f(a: $v) } with b of a sibling type and v = " + sx.String(v)})
 				}
 				cases = append(cases, Case{ID: fmt.Sprintf("k%dv", n), Input: sx.L("coerce", "reqv", t, v),
 					Tags: append(append([]string{}, tags...), "nontrivial", "request-variable"), Human: "query($v: " + coerceTypeText(t) + ") { f(a: $v) } with v = " + sx.String(v)})
@@ -1190,7 +1241,7 @@ func coerceValid(input sx.S) bool {
 		case d == "reqp" && isAtom && vs == "nil":
 			return false
 		case d != "reql" && d != "reqv" && d != "reqp" && d != "reqd0" && d != "reqd1" && d != "reqd2" && d != "reqd3" &&
-			d != "reqrl" && d != "reqr0" && d != "reqr1" && d != "reqr2" && d != "reqr3":
+			d != "reqrl" && d != "reqr0" && d != "reqr1" && d != "reqr2" && d != "reqr3" && d != "reqw":
 			return false
 		}
 	}
